@@ -44,7 +44,7 @@ static std::string oracle(const Case& c) {
 static void run() {
     setup(); Args& a = W().args; Evidence& ev = W().ev;
     // exhaustive 2048 x 2047 ordered coin pairs for k seeds; rows (coin A) are sharded over the workers
-    int nseeds = (int)a.n(2, 24);
+    int nseeds = (int)a.n(4, 24);
     uint64_t rows = 0;
     for (int si = 0; si < nseeds; si++) {
         SplitMix sm(mix64(a.seed * 977 + (uint64_t)si)); std::vector<uint8_t> sec(19); for (auto& b : sec) b = (uint8_t)sm.next();
